@@ -1,10 +1,20 @@
 /-
 Props/C09 — JSON string escaping round-trips and escapes exactly the required set.
-Property theorems only; helpers in Proof/Chunked.lean (generic chunked scan) and Proof/Escape.lean.
+Property theorems only; helpers in Proof/Chunked.lean (generic chunked scan), Proof/Escape.lean,
+Proof/EscapeRoundTrip.lean and Proof/EscapeYq.lean.  Strings are lists of Unicode scalar values;
+`decode` is the RFC 8259 §7 string-body decoder of Model/Escape.lean.
 -/
-import SuccinctlyVerif.Proof.Escape
+import SuccinctlyVerif.Proof.EscapeYq
 namespace SV.Props.C09
-open SV SV.Escape
+open SV SV.Utf8 SV.Escape
+
+/-! ### the escape scanner -/
+
+/-- `scanner_eq`, scalar tier: first index `≥ start` holding `"`, `\` or a byte `< 0x20`, else
+`len`; the slice `bytes[start..]` panics exactly for `start > len`. -/
+theorem scanner_eq_scalar (bytes : List (BitVec 8)) (start : Nat) :
+    scalarFind bytes start = if start > bytes.length then none else some (firstEscapeSpec bytes start) :=
+  scalarFind_eq bytes start
 
 /-- `scanner_eq`, SSE2 tier (`dispatch(.., false)`, and `find` on hosts without AVX2): for every byte
 string and every start offset the result is the first index `≥ start` holding `"`, `\` or a byte
@@ -21,8 +31,9 @@ theorem scanner_eq_avx2 (bytes : List (BitVec 8)) (start : Nat) :
 
 example : findWith avx2Scan ((List.replicate 40 0x61#8) ++ [0x22#8]) 3 = 40 := by decide
 
-/-- `escaped_iff_required`, jq convention: a character is written raw exactly when it is not a C0
-control, DEL, `"` or `\`. -/
+/-! ### escaped exactly when required -/
+
+/-- jq convention: a character is written raw exactly when it is not a C0 control, DEL, `"` or `\`. -/
 theorem escaped_iff_required_jq (c : Nat) :
     jqChar c = [c] ↔ ¬ (c < 0x20 ∨ c = 0x7F ∨ c = 34 ∨ c = 92) := jqChar_raw_iff c
 
@@ -34,17 +45,65 @@ theorem escaped_iff_required_jq_ascii (c : Nat) :
 theorem escaped_iff_required_yq_ascii (c : Nat) :
     yqAsciiChar c = [c] ↔ ¬ (c < 0x20 ∨ c = 34 ∨ c = 92 ∨ 0x80 ≤ c) := yqAsciiChar_raw_iff c
 
+/-- yq convention: exactly C0, `"` and `\` are escaped (DEL and all non-ASCII raw). -/
+theorem escaped_iff_required_yq (c : Nat) :
+    yqChar c = [c] ↔ ¬ (c < 0x20 ∨ c = 34 ∨ c = 92) := by
+  unfold yqChar shortU
+  repeat' split
+  all_goals simp_all
+  all_goals omega
+
+/-- The ASCII writers emit ASCII only. -/
+theorem ascii_writers_emit_ascii (c : Nat) (hs : isScalar c = true) :
+    (∀ x ∈ jqAsciiChar c, x < 0x80) ∧ (∀ x ∈ yqAsciiChar c, x < 0x80) :=
+  ascii_output c hs
+
 example : jqChar 0x7F = [92, 117, 48, 48, 55, 102] := by decide
 
-/-- Round trip, PARTIAL: every ASCII character decodes back from each char-level writer's output
-(RFC 8259 §7 decoder).  MISSING: the same for non-ASCII scalar values (`\uXXXX` / surrogate-pair hex
-arithmetic), the lift to whole strings by induction, and the byte-level yq span-copy writer
-(`writeYq`); these are cross-checked against `decode` on every correspondence request (all 1.1 M
-scalar values in the thorough tier) but not proved. -/
-theorem roundtrip_partial : ∀ c : Fin 128,
-    decode (jqChar c.val) = some [c.val] ∧ decode (jqAsciiChar c.val) = some [c.val] ∧
-    decode (yqAsciiChar c.val) = some [c.val] := ascii_roundtrip
+/-- `conventions_differ_exactly_at`: the jq and yq conventions (and their ASCII variants) write a
+character differently exactly at U+0008, U+000C and U+007F. -/
+theorem conventions_differ_exactly_at (c : Nat) :
+    (jqChar c ≠ yqChar c ↔ (c = 8 ∨ c = 12 ∨ c = 0x7F)) ∧
+    (jqAsciiChar c ≠ yqAsciiChar c ↔ (c = 8 ∨ c = 12 ∨ c = 0x7F)) :=
+  ⟨jq_yq_differ c, jq_yq_ascii_differ c⟩
 
-example : decode (writeJqAscii [0x1F600]) = some [0x1F600] := by decide
+/-! ### the byte-level yq writer -/
+
+/-- `write_json_body_yq` — SIMD escape scan over the UTF-8 bytes, span copy between hits — writes,
+character by character, exactly the yq convention `yqChar`, for every string. -/
+theorem yq_writer_eq (s : List Nat) (hs : ∀ c ∈ s, isScalar c = true) :
+    writeYq s = encodeAll (s.flatMap yqChar) := writeYq_eq s hs
+
+/-- `yq_writer_slices_on_char_boundaries`: in well-formed UTF-8 the scanner can only stop on a
+character boundary (a hit is an ASCII byte, which the Table 3-7 automaton accepts only on a
+boundary), so the span `s[i..escape_pos]` the writer copies never splits a character. -/
+theorem yq_writer_slices_on_char_boundaries (bytes : List (BitVec 8)) (hwf : WellFormed bytes)
+    (start : Nat) : WellFormed (bytes.take (firstEscapeSpec bytes start)) :=
+  hit_on_boundary bytes hwf start
+
+/-! ### round trip -/
+
+/-- Every string decodes back from the jq-convention body. -/
+theorem roundtrip_jq (s : List Nat) (hs : ∀ c ∈ s, isScalar c = true) : decode (writeJq s) = some s :=
+  decode_flatMap jqChar jqChar_decodable jqChar_ne_nil s hs
+
+/-- … from the jq `--ascii-output` body (`\uXXXX`, surrogate pairs for supplementary characters). -/
+theorem roundtrip_jq_ascii (s : List Nat) (hs : ∀ c ∈ s, isScalar c = true) :
+    decode (writeJqAscii s) = some s :=
+  decode_flatMap jqAsciiChar jqAsciiChar_decodable (fun c => jqAsciiChar_ne_nil c) s hs
+
+/-- … from the yq ASCII body. -/
+theorem roundtrip_yq_ascii (s : List Nat) (hs : ∀ c ∈ s, isScalar c = true) :
+    decode (writeYqAscii s) = some s :=
+  decode_flatMap yqAsciiChar yqAsciiChar_decodable (fun c => yqAsciiChar_ne_nil c) s hs
+
+/-- … and from the yq body: the bytes `write_json_body_yq` produces are the UTF-8 encoding of a body
+that decodes back to the string. -/
+theorem roundtrip_yq (s : List Nat) (hs : ∀ c ∈ s, isScalar c = true) :
+    ∃ body, writeYq s = encodeAll body ∧ decode body = some s :=
+  ⟨s.flatMap yqChar, writeYq_eq s hs,
+    decode_flatMap yqChar yqChar_decodable yqChar_ne_nil s hs⟩
+
+example : decode (writeJqAscii [0x1F600, 0x22, 0x8]) = some [0x1F600, 0x22, 0x8] := by decide
 
 end SV.Props.C09
